@@ -21,7 +21,7 @@ from . import _trees as T
 
 TIERS = {
     # trees in the main pool, trees in the leading>=2 pool, max nesting depth, sampled widths beyond smin+12
-    "quick": {"main": 1200, "leading": 60, "ratio0": 60, "depth": 3, "extra": 7, "chunk": 10},
+    "quick": {"main": 1000, "leading": 50, "ratio0": 50, "depth": 3, "extra": 7, "chunk": 10},
     "thorough": {"main": 30000, "leading": 1500, "ratio0": 1500, "depth": 4, "extra": 12, "chunk": 50},
 }
 CASE_SECONDS = 5.0
@@ -58,7 +58,7 @@ def _work(job) -> Dict[str, Any]:
         rng, d = _tree_for(seed, pool, idx, cfg["depth"])
         sm = T.smin(d)
         nontrivial = T.node_count(d) >= 2
-        sig = T.signature(d)
+        sig = T.sig_key(d)
         out["trees"] += 1
         out["nontrivial_trees"] += int(nontrivial)
         out["max_depth"] = max(out["max_depth"], T.depth_of(d))
@@ -86,29 +86,12 @@ def _work(job) -> Dict[str, Any]:
 def _minimise(f: Dict[str, Any], cheap: bool = False) -> Dict[str, Any]:
     kind = "raised" if f["check"] == "c01.render_raised" else "over"
 
-    def fails(desc: T.Desc, hint: int) -> Optional[int]:
-        sm = T.smin(desc)
-        ok, r = T.guarded(lambda: T.build(desc), CASE_SECONDS)
-        if not ok:
-            return None
-        ws = list(range(sm, sm + 13))
-        if hint >= sm and hint not in ws:
-            ws.append(hint)
-        ws.sort(key=lambda x: (x != hint, x))
-        for w in ws:
-            res = _check_one(desc, r, w)
-            if res is not None and res[0] == kind:
-                return w
-        return None
+    def fails_at(desc: T.Desc, r, w: int) -> bool:
+        res = _check_one(desc, r, w)
+        return res is not None and res[0] == kind
 
-    d, w = (f["desc"], f["w"]) if cheap else T.minimise(f["desc"], f["w"], fails, max_evals=2000, max_seconds=5.0)
-    r = T.build(d)
-    for w2 in ([] if cheap else range(T.smin(d), w)):  # report the smallest failing width of the minimal tree
-        res = _check_one(d, r, w2)
-        if res is not None and res[0] == kind:
-            w = w2
-            break
-    res = _check_one(d, r, w)
+    d, w = (f["desc"], f["w"]) if cheap else T.minimise(f["desc"], f["w"], fails_at, T.smin)
+    res = _check_one(d, T.build(d), w)
     if res is None or res[0] != kind:  # should not happen; fall back to the original
         d, w = f["desc"], f["w"]
         res = _check_one(d, T.build(d), w)
@@ -160,14 +143,15 @@ def run(tier: str = "quick", seed: int = 0) -> Dict[str, Any]:
     seen_keys = set()
     seen_trees = set()
     tried: Dict[str, int] = {}
-    deadline = time.time() + (20.0 if tier == "quick" else 120.0)  # minimisation is a courtesy, not the check
+    t_min = time.time()
+    budget = 12.0 if tier == "quick" else 90.0  # minimisation is a courtesy, not the check
     # smallest trees first: cheaper to minimise and more likely to be distinct root causes
     for f in sorted(raw, key=lambda f: (f["check"], T.node_count(f["desc"]), f["w"], f["idx"])):
-        if per.get(f["check"], 0) >= 3 or tried.get(f["check"], 0) >= 7 or (f["check"], f["pool"], f["idx"]) in seen_trees:
+        if per.get(f["check"], 0) >= 3 or tried.get(f["check"], 0) >= 4 or (f["check"], f["pool"], f["idx"]) in seen_trees:
             continue
         seen_trees.add((f["check"], f["pool"], f["idx"]))
         tried[f["check"]] = tried.get(f["check"], 0) + 1
-        m = _minimise(f, time.time() > deadline)
+        m = _minimise(f, time.time() - t_min > budget)
         if m["input_key"] in seen_keys:
             continue
         seen_keys.add(m["input_key"])
